@@ -88,7 +88,12 @@ def gen_case(seed):
         if v in M.TRANSFER:
             if rnd.random() < 0.5:
                 ops.append([rnd.choice(["PASV", "EPSV"]), ""])
-            ops.append([v, arg, {"connect": rnd.choice(["before", "after"])}])
+            o = {"connect": rnd.choice(["before", "after"])}
+            if o["connect"] == "after" and rnd.random() < 0.4:
+                # the working directory changes between the 1xx mark and the data connection: the
+                # transfer keeps the location whose permission was looked up
+                o["between"] = [rnd.choice([["CWD", spell(rnd, rnd.choice(LOCS), cwd)], ["CDUP", ""]]) for _ in range(rnd.randint(1, 2))]
+            ops.append([v, arg, o])
         else:
             ops.append([v, arg])
         if v == "CWD":
@@ -169,7 +174,7 @@ def run_case(case):
             "events": world.net.seq,
             "steps": world.loop.steps,
             "outcome": world.outcome,
-            "counters": {"commands_checked": n, "requests_that_must_be_denied": info["denied"], "requests_that_must_not_be_denied": info["allowed"]},
+            "counters": {"commands_checked": n, "requests_that_must_be_denied": info["denied"], "requests_that_must_not_be_denied": info["allowed"], "probe.commands_between_mark_and_data_connection": sum(st.between for st in info.get("steps", []))},
             "violations": out,
         }
         if case.get("want_sample"):
